@@ -160,6 +160,7 @@ class Rec:
         k = self.seen.get(sig, 0)
         self.seen[sig] = k + 1
         if k < 2:
+            case = dict(case, sig=sig)
             self.rep.violation(sig, what, case, **kw)
         else:
             self.rep.add('violations_seen')
@@ -176,3 +177,48 @@ def guarded(rec, sig, case, fn):
         rec(sig + ':exception:' + type(e).__name__,
             'exception %s: %s' % (type(e).__name__, str(e)[:160]), case)
     return False
+
+
+def run_driver(prop, tier, t0, tasks, dispatch, rule, assumptions, replay_fn,
+               level='exploration', extra_cov=None, exhaustive=True):
+    """Common main() of the input-sweep drivers."""
+    from . import run
+    rep = run.Report()
+    run.pmerge(dispatch, tasks, rep)
+    run.close_pool()
+    cov = dict(
+        evaluations=rep.counts.get('evaluations', 0),
+        distinct_nontrivial=rep.counts.get('nontrivial', 0),
+        rule=rule, exhaustive=exhaustive and not rep.caps, tasks=len(tasks))
+    if extra_cov:
+        cov.update(extra_cov)
+    return run.finish(prop, level, tier, rep, t0, cov, assumptions, replay_fn=replay_fn)
+
+
+def replay_by_task(dispatch):
+    """Replay = re-run the (narrowed) task recorded in the case; same signature must recur."""
+    def replay(case):
+        t = case.get('task')
+        if t is None:
+            return None
+        t = _tuplify(t)
+        rep = dispatch(t)
+        sig = case.get('sig')
+        for v in rep.violations:
+            if sig is None or v['signature'] == sig:
+                return v['what']
+        return None
+    return replay
+
+
+def _tuplify(x):
+    if isinstance(x, list):
+        return tuple(_tuplify(y) for y in x)
+    return x
+
+
+def subsets(names):
+    names = list(names)
+    for k in range(len(names) + 1):
+        for c in itertools.combinations(names, k):
+            yield c
